@@ -460,6 +460,42 @@ def defsEnv : List (String × FieldDecl) → List (String × Schema) → List (S
 def envResolver (env : List (String × FieldDecl)) : String → FieldDecl :=
   fun r => (lookup r env).getD (.struct { name := r, required := [], accepts := [r] } [] [])
 
+/-! ### order of the definitions: depth-first, referenced definitions first -/
+
+abbrev Defs := List (String × Schema)
+
+/-- `_definitions_in_dependency_order`, one root: the definitions `n` refers to (transitively, in
+    order of appearance, skipping unknown names and names already started), then `n`;
+    state = (started, ordered) -/
+def visitDef (defs : Defs) : Nat → String → List String × List String → List String × List String
+  | 0, _, st => st
+  | fuel + 1, n, st =>
+    if st.1.contains n then st
+    else match lookup n defs with
+      | none => st
+      | some s =>
+        let st' := (refsOf s).foldl (fun acc r => visitDef defs fuel r acc) (n :: st.1, st.2)
+        (st'.1, st'.2 ++ [n])
+
+/-- the emission order of the definitions' names -/
+def topoOrder (defs : Defs) : List String :=
+  ((defs.map (·.1)).foldl (fun acc n => visitDef defs (defs.length + 1) n acc) ([], [])).2
+
+def knownDef (defs : Defs) (r : String) : Bool := (lookup r defs).isSome
+
+/-- on the reversed emission order (latest first): every definition comes after all the
+    definitions it refers to -/
+def definedBeforeUse (defs : Defs) : List String → Prop
+  | [] => True
+  | n :: earlier =>
+    (∀ s, lookup n defs = some s → ∀ r ∈ refsOf s, knownDef defs r = true → r ∈ earlier)
+      ∧ definedBeforeUse defs earlier
+
+/-- the references between definitions have no cycle: a rank decreases along every reference -/
+def Acyclic (defs : Defs) : Prop :=
+  ∃ rk : String → Nat, (∀ n, rk n ≤ defs.length) ∧
+    ∀ n s, lookup n defs = some s → ∀ r ∈ refsOf s, knownDef defs r = true → rk r < rk n
+
 /-! ### string-bearing parts of the emitted text -/
 
 /-- a string literal the generator emits: where, its source text, the string it should denote -/
